@@ -328,9 +328,7 @@ def rule_inc(R):
         tedges = []
         for rc in outq.calls_to(f, hb, rfun):
             if rc.bb in blocks and arm_of(hb, sw, rc.bb) == [arm]:
-                for si in hb.result_switches(lambda x, rc=rc: peel(x)[0] == "call" and peel(x)[1] == rc.bb):
-                    if si["edges"].get(True) is not None:
-                        tedges.append((si["bb"], si["edges"][True]))
+                tedges += outq.removed_edges(f, hb, rc, rfun)
         ok, off, np_ = paths.every_path_passes(hb, entry, bb, via_edges=tedges) if tedges else (False, None, 0)
         R.ob("inc/after-removal/%s" % arm, ok,
              "the quota is returned only when this %s actually removed an in-flight entry (a stale or duplicate "
@@ -353,9 +351,7 @@ def rule_inc(R):
         tstarts = []
         for rc in outq.calls_to(f, hb, rfun):
             if rc.bb in blocks and arm_of(hb, sw, rc.bb) == [arm]:
-                for si in hb.result_switches(lambda x, rc=rc: peel(x)[0] == "call" and peel(x)[1] == rc.bb):
-                    if si["edges"].get(True) is not None:
-                        tstarts.append(si["edges"][True])
+                tstarts += [t_ for (_, t_) in outq.removed_edges(f, hb, rc, rfun)]
         if rule == "failure-only":
             hook = reason_hook(arm)
             ok = bool(stores) and bool(tstarts)
